@@ -756,6 +756,53 @@ def r26_18(ctx, rep):
     run_as(r05_1, "R26.18", ctx, rep)
 
 
+@SPEC.rule(
+    "R26.19",
+    "every requested model is either processed or counted: in main, each iteration of a loop over the requested models (`args.model`) "
+    "passes a call that handles that model (translate / flatten_class / transfer_model, given the loop variable) or an increment of the error "
+    "counter — a `continue` in front of the work (a `seen` set keyed by part of the name, a filter) drops a model whose failure would have "
+    "been counted, and the exit status is 0",
+)
+def r26_19(ctx, rep):
+    from ..cfg import iteration_skips
+    R = "R26.19"
+    fn = ctx.func(CLI, "main", R)
+    site = CLI + ":main"
+    cfg = CFG(fn, R)
+    n = 0
+    # the error counter is what main returns
+    counters = {r.value.id for r in ast.walk(fn) if isinstance(r, ast.Return) and isinstance(r.value, ast.Name)}
+    if not counters:
+        raise MechanismMissing(R, "main returns no counter")
+    for lp in ast.walk(fn):
+        if not (isinstance(lp, ast.For) and isinstance(lp.target, ast.Name) and norm(lp.iter).endswith(".model")):
+            continue
+        n += 1
+        v = lp.target.id
+
+        def handles(x, v=v, lp=lp, counters=counters):
+            a = x.ast
+            if x.kind != "stmt" or isinstance(a, (ast.If, ast.For, ast.While, ast.Try, ast.With)):
+                # an `if not translate(..model..):` test is an assume node: look at its expression
+                if x.kind == "assume":
+                    if norm(a) == norm(lp.iter) and not x.taken:
+                        return True  # inside a loop over <list> the list is not empty: this branch is not a path
+                    return any(isinstance(c, ast.Call) and any(is_name(g, v) for g in c.args) and (call_name(c) or "").split(".")[-1] in (
+                        "translate", "flatten_class", "transfer_model") for c in ast.walk(a))
+                return False
+            if isinstance(a, ast.AugAssign) and isinstance(a.target, ast.Name) and a.target.id in counters:
+                return True
+            return any(isinstance(c, ast.Call) and any(is_name(g, v) for g in c.args) and (call_name(c) or "").split(".")[-1] in (
+                "translate", "flatten_class", "transfer_model") for c in ast.walk(a))
+
+        w = iteration_skips(cfg, lp, handles)
+        rep.ob(R, site, "loop over the requested models (line-independent: `for %s in %s`) handles or counts every model" % (v, norm(lp.iter)), w is None,
+               "an iteration can end without translating / flattening `%s` and without counting an error: that model's failure never reaches the exit status" % v,
+               path=cfg.describe(w) if w else "")
+    if n < 2:
+        raise MechanismMissing(R, "the loops over the requested models were not found in main (found %d)" % n)
+
+
 # -- seeded variants ---------------------------------------------------------
 from ._mut import delete_stmt_where, replace_in_func  # noqa: E402
 
@@ -918,6 +965,20 @@ def _m_skip_after_failure(mod):
         for lp in ast.walk(fn):
             if isinstance(lp, ast.For) and norm(lp.iter) == "args.model":
                 lp.body.insert(0, ast.parse("if errors:\n    continue").body[0])
+                return True
+        return False
+
+    return mod if replace_in_func(mod, "main", edit) else None
+
+
+@SPEC.mutant("requested models filtered through a seen-set before they are handled", CLI, "R26.19", "handles or counts every model")
+def _m_seen_models(mod):
+    def edit(fn):
+        for lp in ast.walk(fn):
+            if isinstance(lp, ast.For) and isinstance(lp.target, ast.Name) and norm(lp.iter).endswith(".model"):
+                lp.body.insert(0, ast.parse("if %s.split('.')[0] in _seen:\n    continue" % lp.target.id).body[0])
+                lp.body.insert(1, ast.parse("_seen.add(%s.split('.')[0])" % lp.target.id).body[0])
+                fn.body.insert(0, ast.parse("_seen = set()").body[0])
                 return True
         return False
 
